@@ -310,7 +310,7 @@ fn gen_program(src: &mut Src) -> Program {
             let align = if side.horizontal() { *src.pick(&[MSide::Bottom, MSide::Top]) } else { *src.pick(&[MSide::Left, MSide::Right]) };
             let sep = match src.below(3) {
                 0 => MSep::None,
-                1 => MSep::Pitches(src.i64_in(0, 20)),
+                1 => MSep::Pitches(src.i64_in(-6, 20)), // negative: the boxes overlap by that much
                 _ => MSep::SizeOf(src.index(nc)),
             };
             Some(MRel { to, side, align, sep })
@@ -462,6 +462,12 @@ fn array_case(src: &mut Src, ctx: &mut Ctx) -> Result<(), String> {
         top.places.push(Placeable::Array(Ptr::new(ArrayInstance { name: name.clone(), array: arr, loc: Place::Abs(Xy::from((ai.loc.0 as isize, ai.loc.1 as isize))), reflect_vert: ai.rv, reflect_horiz: ai.rh })));
         want.extend(expand_inst(ai, &name));
     }
+    // an ordinary instance beside the arrays, in half of the cases
+    if src.bool() {
+        let loc = (src.signed(300), src.signed(300));
+        top.instances.add(Instance { inst_name: "plain".into(), cell: cells[0].clone(), loc: (loc.0 as isize, loc.1 as isize).into(), reflect_horiz: false, reflect_vert: true });
+        want.push(("plain".to_string(), 0, loc, false, true));
+    }
     lib.cells.add(Cell::from(top));
     let nested = arrs.iter().any(|a| matches!(a.array.unit, MUnit::Array(_)));
     let refl = arrs.iter().any(|a| a.rh || a.rv);
@@ -483,6 +489,9 @@ fn array_case(src: &mut Src, ctx: &mut Ctx) -> Result<(), String> {
         let ci: usize = cname[1..].parse().map_err(|_| "cell name")?;
         got.push((inst.inst_name.clone(), ci, loc, inst.reflect_horiz, inst.reflect_vert));
     }
+    // which of the two lists (instances, placeable objects) comes first in the result is not specified
+    got.sort();
+    want.sort();
     if got != want {
         let i = got.iter().zip(want.iter()).position(|(a, b)| a != b).unwrap_or(got.len().min(want.len()));
         return Err(format!("array expansion differs at element {}: got {:?}, expected {:?} ({} vs {} instances; name, cell, location, reflect_horiz, reflect_vert)\narrays {:?}", i, got.get(i), want.get(i), got.len(), want.len(), arrs));
